@@ -27,7 +27,8 @@ META = {
                    "tables/paths on a sample), exhaustive for all 74 963 relations <= 4x4 in the thorough tier.  wf_svm (no repeated "
                    "dict key / set element) is the type invariant of the Python value.  Python's IndexError on out-of-range "
                    "vertices is not modelled (the graphs built by _flow_network_for are proved in range: network_is_net).  "
-                   "The certificate validator (soh_certified) is still evaluated on every case as an independent cross-check."),
+                   "The certificate validator (soh_certified) is still evaluated as an independent cross-check (every case in quick, "
+                   "every 3rd exhaustive relation in thorough)."),
     "technique": "Coq proof of the algorithm (invariant + termination, all inputs) over an executable model + differential run of model vs implementation + independent Kuhn oracle",
     "design_ref": "8/C08, A.3",
     "trusted_base": ["harness/props/c08.py reads CPython's dict/set iteration order off shares_by_server() and hands it to the model"],
@@ -210,7 +211,7 @@ class Batch(object):
         self.terms, self.info = [], []
 
 
-def one_case(ctx, batch, edges, empty_shares, variants, r, kind, deep=False):
+def one_case(ctx, batch, edges, empty_shares, variants, r, kind, deep=False, cert=True, top=True):
     """edges: iterable of (server index, share number)."""
     from allmydata.util import happinessutil as U
     from allmydata.immutable import happiness_upload as H
@@ -255,11 +256,16 @@ def one_case(ctx, batch, edges, empty_shares, variants, r, kind, deep=False):
         svm = [(numbering[p], list(shs)) for p, shs in sbs.items()]
         if sm:
             a = "chk_soh %s %s" % (t_svm(svm), T.Z(got))
-            b = "soh_certified %s" % t_svm(svm)
-            batch.add("(%s) && (%s)" % (a, b), "servers_of_happiness-vs-model", "soh-model-vs-impl", case, alt=[a, b])
-        # top-level model (its own shares_by_server, insertion order)
-        smt = T.lst([T.pair(T.N(sh), T.lst([T.N(p) for p in peer_orders.get(sh, [])])) for sh in key_order])
-        batch.add("chk_top %s %s" % (smt, T.Z(got)), "servers_of_happiness-vs-model", "soh-top-model-vs-impl", case)
+            if cert:
+                # cross-check: the Koenig certificate read off the model's final state is accepted
+                b = "soh_certified %s" % t_svm(svm)
+                batch.add("(%s) && (%s)" % (a, b), "servers_of_happiness-vs-model", "soh-model-vs-impl", case, alt=[a, b])
+            else:
+                batch.add(a, "servers_of_happiness-vs-model", "soh-model-vs-impl", case)
+        if top or not sm:
+            # top-level model (its own shares_by_server, insertion order)
+            smt = T.lst([T.pair(T.N(sh), T.lst([T.N(p) for p in peer_orders.get(sh, [])])) for sh in key_order])
+            batch.add("chk_top %s %s" % (smt, T.Z(got)), "servers_of_happiness-vs-model", "soh-top-model-vs-impl", case)
         if rec and sm:
             ordered = {p: list(shs) for p, shs in sbs.items()}
             g = U._flow_network_for(ordered)
@@ -358,7 +364,10 @@ def run(ctx):
         n = 0
         for ns, nh, E in all_small():
             deep = (n % 97 == 0)
-            one_case(ctx, batch, E, set(), [0, 2] if n % 5 else [0, 1, 2, 3], ctx.rng("small", n), "exhaustive-%dx%d" % (ns, nh), deep=deep)
+            # every relation: the real function under 2 (every 5th: 4) insertion orders against the oracle and the
+            # model; certificate cross-check and the sharemap-level model on every 3rd relation
+            one_case(ctx, batch, E, set(), [0, 2] if n % 5 else [0, 1, 2, 3], ctx.rng("small", n), "exhaustive-%dx%d" % (ns, nh),
+                     deep=deep, cert=(n % 3 == 0), top=(n % 3 == 0))
             n += 1
             if len(batch.terms) >= 40000:
                 batch.flush("c08small")
